@@ -1,9 +1,9 @@
 import json, os, sys
 sys.path.insert(0, os.path.dirname(os.path.abspath(__file__)))
-from props_config import PROPS
+from props_config import PROPS, WIP
 HOOK_COMMITS = []
 ALL = ["C%02d" % i for i in range(1, 21)]
-TEXT = {p: c["manifest"] for p, c in PROPS.items()}
+TEXT = {p: c["manifest"] for p, c in PROPS.items() if p not in WIP}
 _na = {}
 _f = os.path.join(os.path.dirname(os.path.abspath(__file__)), "not_applicable.json")
 if os.path.exists(_f):
